@@ -205,6 +205,23 @@ pub fn check_plain_with(txt: &str, ep: &EnergyPerformance, slack_rel: f64) -> Ch
         }
         Ok(())
     };
+    // the additional indicator: renewable share of the DHW demand, in per cent with one decimal, or a dash
+    let dhw_line = txt.lines().find(|l| l.trim_start().starts_with("Porcentaje renovable de la demanda de ACS"));
+    match &ep.misc {
+        Some(m) => {
+            let l = dhw_line.ok_or_else(|| Failure::new("plain_missing", "no line for the renewable share of the DHW demand although the result carries the indicators".to_string()))?;
+            let shown = l.rsplit(':').next().unwrap_or("").trim().trim_end_matches("[%]").trim().to_string();
+            match m.get("fraccion_renovable_demanda_acs_nrb").and_then(|v| v.parse::<f64>().ok()) {
+                Some(fr) if fr.is_finite() => {
+                    let g: f64 = shown.parse().map_err(|_| Failure::new("plain_value", format!("DHW renewable share printed as `{}` but the result holds {}", shown, fr)))?;
+                    ensure!(near(g, 100.0 * fr, 0.051 + 1e-6 * (100.0 * fr).abs()), "plain_value", "DHW renewable share printed as {} % but the result holds the fraction {}", g, fr);
+                }
+                Some(_) => {}
+                None => ensure!(shown == "-", "plain_value", "DHW renewable share printed as `{}` although the result holds no value", shown),
+            }
+        }
+        None => ensure!(dhw_line.is_none(), "plain_value", "a DHW renewable share is printed although the result carries none"),
+    }
     one("Area_ref", &[ep.arearef as f64], 0.01)?;
     one("k_exp", &[ep.k_exp as f64], 0.01)?;
     let b = bal.we.b;
